@@ -146,7 +146,10 @@ class Report:
         if self.analysis_errors:
             for e in self.analysis_errors:
                 print(f"ANALYSIS-ERROR property={self.prop} {e}")
-            return 2
+            if not violations:
+                return 2
+        # a named violated construct takes precedence over a failed instance floor (the floor usually fails *because*
+        # the construct changed); a failed floor alone is an analysis error (exit 2)
         if violations:
             os.makedirs(OUT_DIR, exist_ok=True)
             rp = os.path.join(OUT_DIR, f"{self.prop}.violations.json")
